@@ -46,23 +46,30 @@ def main():
             continue
         res = {"id": sid, "property": prop, "runs": []}
         caught = False
-        for tier in ("quick", "thorough"):
+        plan = [(prop, "quick"), (prop, "thorough")]
+        if os.environ.get("BENIGN_QUICK_ONLY"):
+            plan = [(prop, "quick")]
+        if os.environ.get("BENIGN_ALSO"):  # the other properties anchored in the files the patch touches
+            plan = [(q, "quick") for q in meta.get("also", [])]
+        for cprop, tier in plan:
             env = dict(os.environ, VERIF_REPO=scratch)
             t0 = time.time()
-            r = run([os.path.join(ROOT, "check"), prop, "--tier", tier], cwd=ROOT, env=env)
+            r = run([os.path.join(ROOT, "check"), cprop, "--tier", tier], cwd=ROOT, env=env)
             viol = [ln for ln in r.stdout.splitlines() if ln.startswith("VIOLATION")]
             why = [ln for ln in r.stdout.splitlines() if ln.startswith("---- ")][:2]
-            res["runs"].append({"tier": tier, "exit": r.returncode, "violations": len(viol), "wall_s": round(time.time() - t0, 1),
+            res["runs"].append({"check": cprop, "tier": tier, "exit": r.returncode, "violations": len(viol), "wall_s": round(time.time() - t0, 1),
                                 "first_message": (why[0][:400] if why else "")})
             if r.returncode != 0 or viol:
                 caught = True
                 break
-            if os.environ.get("BENIGN_QUICK_ONLY"):
-                break
         res["alarm"] = caught
-        json.dump(res, open(os.path.join(d, "result.json"), "w"), indent=1)
+        if not plan:
+            shutil.rmtree(scratch, ignore_errors=True)
+            continue
+        json.dump(res, open(os.path.join(d, "result-also.json" if os.environ.get("BENIGN_ALSO") else "result.json"), "w"), indent=1)
         shutil.rmtree(scratch, ignore_errors=True)
-        shutil.rmtree(os.path.join(ROOT, "failures", prop), ignore_errors=True)
+        for q in {c for c, _ in plan}:
+            shutil.rmtree(os.path.join(ROOT, "failures", q), ignore_errors=True)
         summary.append((sid, prop, caught, res["runs"][-1]["tier"], res["runs"][-1]["wall_s"]))
         print("%-40s %s ALARM=%s (%s, %.0fs) %s" % (sid, prop, caught, res["runs"][-1]["tier"], res["runs"][-1]["wall_s"],
                                                       res["runs"][-1]["first_message"][:160]))
